@@ -26,7 +26,7 @@ def run(c, prefix):
         trace = c.replay
     else:
         trace = c.scratch + "/combine.ndjson"
-        n = 1500 if c.thorough else 45
+        n = 400 if c.thorough else 45
         args = ["-n", n, "-out", trace]
         if c.thorough:
             args += ["-pairs", 5, "-maxsegs", 8, "-maxcores", 10]
